@@ -196,7 +196,7 @@ def _mk_remove(kind, op, full):
         net = spec.build()
         before = snapshot(net)
         if op < 3:
-            net.remove_lanelet(LIDS[op])
+            net.remove_lanelet(LIDS[op], rtree=bool(V.flag("rebuild_spatial_index")))  # the references are cleaned either way
             exp = expected_after(before, gone_lanelets=[LIDS[op]])
         elif op < 5:
             net.remove_traffic_sign((10, 11)[op - 3])
